@@ -11,143 +11,10 @@ import (
 	"google.golang.org/protobuf/proto"
 	"google.golang.org/protobuf/reflect/protoreflect"
 	"google.golang.org/protobuf/zverif/gen"
+	"google.golang.org/protobuf/zverif/mcase"
 	"google.golang.org/protobuf/zverif/model"
 	"pgregory.net/rapid"
 )
-
-func orEmpty(v *model.Msg) *model.Msg {
-	if v == nil {
-		return &model.Msg{}
-	}
-	return v
-}
-
-// recycle transforms m in place so that it holds exactly v.
-func recycle(m protoreflect.Message, v *model.Msg) error {
-	md := m.Descriptor()
-	v = orEmpty(v)
-	var drop []protoreflect.FieldDescriptor
-	m.Range(func(fd protoreflect.FieldDescriptor, _ protoreflect.Value) bool {
-		if v.Get(int32(fd.Number())) == nil {
-			drop = append(drop, fd)
-		}
-		return true
-	})
-	for _, fd := range drop {
-		m.Clear(fd)
-	}
-	for _, f := range v.Fields {
-		fd := model.FieldDesc(md, f.Num, nil)
-		if fd == nil {
-			return fmt.Errorf("recycle: %s has no field %d", md.FullName(), f.Num)
-		}
-		switch {
-		case fd.IsMap():
-			mp := m.Mutable(fd).Map()
-			want := map[any]bool{}
-			for _, k := range f.Keys {
-				want[model.ToValue(fd.MapKey(), k).MapKey().Interface()] = true
-			}
-			var gone []protoreflect.MapKey
-			mp.Range(func(k protoreflect.MapKey, _ protoreflect.Value) bool {
-				if !want[k.Interface()] {
-					gone = append(gone, k)
-				}
-				return true
-			})
-			for _, k := range gone {
-				mp.Clear(k)
-			}
-			for i, k := range f.Keys {
-				kv := model.ToValue(fd.MapKey(), k).MapKey()
-				switch {
-				case fd.MapValue().Message() == nil:
-					mp.Set(kv, model.ToValue(fd.MapValue(), f.Vals[i]))
-				case mp.Has(kv):
-					if err := recycle(mp.Mutable(kv).Message(), f.Vals[i].M); err != nil {
-						return err
-					}
-				default:
-					sub := mp.NewValue()
-					if err := model.Apply(sub.Message(), orEmpty(f.Vals[i].M), nil); err != nil {
-						return err
-					}
-					mp.Set(kv, sub)
-				}
-			}
-		case fd.IsList():
-			l := m.Mutable(fd).List()
-			if fd.Message() == nil {
-				l.Truncate(0)
-				for _, e := range f.Vals {
-					l.Append(model.ToValue(fd, e))
-				}
-				break
-			}
-			if l.Len() > len(f.Vals) {
-				l.Truncate(len(f.Vals))
-			}
-			for i, e := range f.Vals {
-				if i < l.Len() {
-					if err := recycle(l.Get(i).Message(), e.M); err != nil {
-						return err
-					}
-					continue
-				}
-				sub := l.NewElement()
-				if err := model.Apply(sub.Message(), orEmpty(e.M), nil); err != nil {
-					return err
-				}
-				l.Append(sub)
-			}
-		case fd.Message() != nil:
-			if err := recycle(m.Mutable(fd).Message(), f.Vals[0].M); err != nil {
-				return err
-			}
-		default:
-			m.Set(fd, model.ToValue(fd, f.Vals[0]))
-		}
-	}
-	m.SetUnknown(append(protoreflect.RawFields(nil), v.Unknown...))
-	return nil
-}
-
-// hollow derives the content under test from the previous content: submessages at any depth are
-// kept, emptied (still present) or dropped; scalars are kept or dropped. hollowed counts emptied
-// submessages that had content.
-func hollow(t *rapid.T, md protoreflect.MessageDescriptor, pre *model.Msg, hollowed *int) *model.Msg {
-	out := &model.Msg{}
-	if rapid.IntRange(0, 2).Draw(t, "keepunknown") > 0 {
-		out.Unknown = append([]byte(nil), pre.Unknown...)
-	}
-	for _, f := range pre.Fields {
-		fd := model.FieldDesc(md, f.Num, nil)
-		if fd == nil || rapid.IntRange(0, 5).Draw(t, "dropfield") == 0 {
-			continue
-		}
-		sub := fd.Message()
-		if fd.IsMap() {
-			sub = fd.MapValue().Message()
-		}
-		nf := model.Field{Num: f.Num, Keys: f.Keys}
-		for _, v := range f.Vals {
-			if sub == nil || v.M == nil {
-				nf.Vals = append(nf.Vals, v)
-				continue
-			}
-			if rapid.IntRange(0, 2).Draw(t, "hollow") == 0 {
-				if len(v.M.Fields) > 0 || len(v.M.Unknown) > 0 {
-					*hollowed++
-				}
-				nf.Vals = append(nf.Vals, model.Val{M: &model.Msg{}})
-			} else {
-				nf.Vals = append(nf.Vals, model.Val{M: hollow(t, sub, v.M, hollowed)})
-			}
-		}
-		out.Fields = append(out.Fields, nf)
-	}
-	return out
-}
 
 // drawRecycled turns a freshly drawn case into a recycled one: the drawn content becomes the
 // previous content, the content under test is derived from it.
@@ -155,7 +22,7 @@ func drawRecycled(t *rapid.T, c *rtCase) {
 	md := c.Desc()
 	c.Pre = c.M
 	c.PreOp = rapid.SampledFrom([]string{"marshal", "size", "detmarshal", "none"}).Draw(t, "preop")
-	c.M = hollow(t, md, c.Pre, &c.Hollowed)
+	c.M = mcase.Hollow(t, md, c.Pre, &c.Hollowed)
 	eo := model.AllPerturbations
 	c.Labels = nil
 	eo.Labels = &c.Labels
@@ -178,7 +45,7 @@ func buildRecycled(c rtCase) (protoreflect.Message, error) {
 	case "size":
 		proto.Size(m.Interface())
 	}
-	if err := recycle(m, c.M); err != nil {
+	if err := mcase.Recycle(m, c.M); err != nil {
 		return nil, fmt.Errorf("harness: %v", err)
 	}
 	return m, nil
